@@ -12,7 +12,12 @@ from sim.core import Violation
 def main():
     pid, idx = sys.argv[1], int(sys.argv[2])
     base = int(sys.argv[3]) if len(sys.argv) > 3 else 0
+    tap = pid.endswith('tap')
+    pid = pid[:-3] if tap else pid
     prop = props.get(pid)
+    if tap:
+        prop = prop.TAP_CLASS()
+        prop.ENGINE = 'tap'
     seed = core.derive_seed(base, pid, prop.ENGINE, idx)
     if os.environ.get('SEED'): seed = int(os.environ['SEED'])
     rng = random.Random(seed)
